@@ -21,6 +21,7 @@ def checkers_for(prop, opts):
         'C16': [checkers.C16Serialise],
         'C18': [checkers.C18Unchecked],
         'C17': [checkers.C17Write],
+        'C09': [checkers.C09Parse],
     }
     for k in table.get(prop, []):
         c.append(k())
@@ -771,3 +772,54 @@ def wl_C17(rng, w, cfg, index):
             if nd.children and nd.xsd_check:
                 yield case('break+old', [{'op': 'REMOVE', 'a': 0, 'p': path, 'i': 0}, dict(W)], priors[2], rng.choice(encs))
     return program(), {'nonascii': nonascii, 'size': size}
+
+
+# ---------------------------------------------------------------------------------- C09: read seam
+def wl_C09(rng, w, cfg, index):
+    from . import docgen
+    from .simfs import MOUNT
+    corrupt = rng.random() < cfg.get('p_corrupt', 0.5)
+    writer = 'library' if rng.random() < 0.4 else 'foreign'
+    nonascii = rng.random() < 0.4
+    size = rng.randint(4, cfg.get('max_size', 40))
+
+    def program():
+        valid = False
+        if writer == 'library':
+            tree = docgen.gen_score(rng, size=size, nonascii=nonascii)
+            if tree is None:
+                return
+            yield {'op': 'NEW', 'a': 0, 'doc': 'd0', 'c': tree}
+            if 'd0' not in w.docs:
+                return
+            yield {'op': 'WRITE', 'a': 0, 'doc': 'd0', 'path': 'f.xml', 'ic': False}
+            if w.events[-1]['r'] != 'ok':
+                return
+            valid = True       # C01 permitting; the model generated the tree
+        else:
+            # half of the foreign documents use every attribute form the schema allows; the other half stay
+            # away from the forms the pinned library is known to reject outright (xml:lang, xlink:*, name=,
+            # xml:space, source=) so that the lossless half of the property is explored beyond them
+            tree = docgen.gen_score(rng, size=size, nonascii=nonascii, foreign=True if rng.random() < 0.5 else 'restricted')
+            if tree is None:
+                return
+            text = docgen.to_xml(tree, style=rng.randrange(3))
+            enc = 'utf-8'
+            yield {'op': 'FSPUT', 'path': 'f.xml', 'hex': text.encode(enc).hex()}
+            valid = True
+        w.count('c09.documents.' + writer)
+        if rng.random() < 0.2:
+            yield {'op': 'FAULT', 'kind': 'fs.encoding', 'params': {'encoding': rng.choice(['ascii', 'latin-1', 'cp1252'])}}
+        n = len(w.fs.files.get(MOUNT + 'f.xml', b''))
+        if corrupt and n:
+            for _ in range(rng.choice([1, 1, 1, 2])):
+                k = rng.choice(['disk.token_rot'] * 6 + ['disk.truncate', 'disk.flip', 'disk.zero_sector', 'disk.dup_sector',
+                                                         'disk.swap_sectors', 'disk.recode'])
+                sector = rng.choice([64, 128, 256, 512])
+                p = {'path': 'f.xml', 'offset': rng.randrange(n), 'bit': rng.randrange(8), 'sector': sector,
+                     'index': rng.randrange(1000), 'index2': rng.randrange(1000), 'k': rng.randrange(1000),
+                     'what': rng.choice(['tag', 'attr-name', 'attr-value', 'text', 'text']),
+                     'to': rng.choice(['latin-1', 'utf-16', 'cp1252'])}
+                yield {'op': 'FAULT', 'kind': k, 'params': p}
+        yield {'op': 'PARSE', 'a': 1, 'path': 'f.xml', 'doc': 'p', 'valid': valid, 'corrupted': corrupt, 'writer': writer}
+    return program(), {'writer': writer, 'corrupt': corrupt, 'size': size}
